@@ -112,7 +112,9 @@ fn b_add(src: &mut Src, env: &Env) -> Case {
 macro_rules! unary_sync {
     ($fname:ident, $kind:literal, $tin:ty, $tout:ty, $gen:expr, $mk:expr, $model:expr, $pfmt:expr) => {
         fn $fname(src: &mut Src, env: &Env) -> Case {
-            let n = gen_len(src, env.cap::<$tin>());
+            // Against the larger of the two capacities (in items), so that a
+            // narrowing block (f32 -> u8) can fill its output too.
+            let n = gen_len(src, env.cap::<$tin>().max(env.cap::<$tout>()));
             #[allow(clippy::redundant_closure_call)]
             let data: Vec<$tin> = ($gen)(src, n);
             let tags = gen_tags(src, n, env.cap::<$tin>());
@@ -989,7 +991,9 @@ fn b_fft_filter_float(src: &mut Src, env: &Env) -> Case {
     while fft_block_len(tf.len()) > cap / 2 {
         tf.truncate(tf.len() / 2);
     }
-    let n = gen_len_small(src, cap);
+    // Lengths against the capacity of the float streams (twice the inner
+    // complex ones), so that the outer output does fill up.
+    let n = gen_len_small(src, env.cap::<f32>());
     let data = gen_f32_tame(src, n);
     let tags = gen_tags(src, n, cap);
     let (p, r) = StreamIn::new(data, tags);
@@ -1185,7 +1189,8 @@ fn b_il2p(src: &mut Src, env: &Env) -> Case {
 }
 
 fn b_au_encode(src: &mut Src, env: &Env) -> Case {
-    let n = gen_len(src, env.cap::<f32>() / 2);
+    // 2 output bytes per sample plus the header: enough to fill the output.
+    let n = gen_len(src, env.cap::<u8>() / 2);
     let data = gen_f32_vec(src, n, true);
     let (p, r) = StreamIn::new(data, vec![]);
     let rate = *src.pick(&[8000u32, 44100, 48000]);
